@@ -225,7 +225,7 @@ func c18NameBatches(tier string) int {
 }
 
 func c18Batches(tier string) int {
-	extra := 8
+	extra := 16
 	if tier == "thorough" {
 		extra = 64
 	}
@@ -462,7 +462,7 @@ func init() {
 		ID: "C10", Level: "exploration",
 		Rule:        "PRNG histories of register / registerTLD / transfer (other, self, contract) / renew (1..10, 0, 11, default overload) / setAdmin over 10 names of level 2-4 under a long-lived and a short-lived TLD, 3 users and a contract owner, the clock stepped by seconds and onto the instants exp-1 / exp / exp+1 of live names and TLDs; the shared NNS reference model predicts outcome and notifications; after every operation totalSupply, raw sum of balances, balanceOf, tokensOf, tokens and isAvailable / ownerOf / properties of every pool name (also at the three boundary instants) are compared. distinct = (method, signers, reason, outcome).",
 		Assumptions: append(tb, "isAvailable under an expired or missing parent chain is logged, not judged"),
-		Batches:     tier(48, 512), Helpers: []string{"holder"}, Chunk: 4,
+		Batches:     tier(192, 2048), Helpers: []string{"holder"}, Chunk: 8,
 		Floors: []string{"register:ok", "register:false", "takeover-of-expired-name", "transfer:ok", "transfer:false", "renew:ok", "renew:fail", "isAvailable@exp-1", "isAvailable@exp", "isAvailable@exp+1", "ownerOf-answers@exp-1", "ownerOf-refuses-under-expired-parent", "parent-tld-boundary", "setAdmin:ok"},
 		Run:    runC10,
 	})
@@ -470,7 +470,7 @@ func init() {
 		ID: "C11", Level: "exploration",
 		Rule:        "PRNG histories with evolving ownership (transfers, admin changes, expiry and re-registration by somebody else); every step draws a mutating NNS method, a target name and a role {owner, admin, former owner, former admin, parent owner, parent admin, stranger, committee majority, Alphabet (differs from the majority for 3 and 7 keys), single member, nobody}; arguments are valid so that authorisation alone decides; the model computes who may perform the call now and the call must take effect or be inert (no storage diff, no notification) accordingly. distinct = (method, signers, reason, outcome).",
 		Assumptions: tb,
-		Batches:     tier(48, 768), Helpers: []string{"holder"}, Chunk: 4,
+		Batches:     tier(192, 2048), Helpers: []string{"holder"}, Chunk: 8,
 		Floors: []string{"addRecord:accepted-by-owner", "addRecord:accepted-by-admin", "addRecord:refused-by-former-owner", "addRecord:refused-by-former-admin", "addRecord:refused-by-stranger", "addRecord:refused-by-parent-owner",
 			"transfer:accepted-by-owner", "transfer:refused-by-admin", "setAdmin:accepted-by-owner+new-admin", "setAdmin:refused-by-owner-without-new-admin", "setAdmin:refused-by-admin+new-admin",
 			"renew:accepted-by-owner", "renew:accepted-by-admin", "renew:refused-by-stranger", "renew:accepted-by-committee", "renew:refused-by-alphabet", "updateSOA:refused-by-stranger", "deleteRecords:accepted-by-admin", "deleteRecords:refused-by-stranger", "setRecord:refused-by-stranger",
@@ -481,7 +481,7 @@ func init() {
 		ID: "C12", Level: "exploration",
 		Rule:        "PRNG sequences of addRecord / setRecord / deleteRecords / updateSOA over 7 names (tokens, registered and unregistered sub-names, a name two levels below its token), types {A, AAAA, CNAME, TXT, SOA, 0, 255}, CNAME graphs of depth 0..4 with self-loops and cycles, 17 adds of one type, missing record ids, registrations of enclosing names interleaved, clock jumps onto token expiry; after every operation getRecords (ordered), getAllRecords (set), resolve with and without trailing dot for every pool name and type, SOA serials and the conflicting-record rule are compared with the model. distinct = (method, signers, reason, outcome).",
 		Assumptions: append(tb, "resolve over exactly three CNAME links and getRecords for a name with an unregistered intermediate parent are logged, not judged"),
-		Batches:     tier(48, 512), Helpers: []string{"holder"}, Chunk: 4,
+		Batches:     tier(64, 768), Helpers: []string{"holder"}, Chunk: 4,
 		Floors: []string{"addRecord:ok", "addRecord:fail", "setRecord:ok", "setRecord:fail", "deleteRecords:ok", "deleteRecords:fail", "resolve-ok-links0", "resolve-ok-links1", "resolve-ok-links2", "resolve-refuses-long-chain-or-cycle", "resolve-trailing-dot", "conflicting-record-blocks-registration", "records-unreachable", "clock-at-token-expiry"},
 		Run:    runC12,
 	})
